@@ -285,6 +285,15 @@ impl<'t, 'd> Gen<'t, 'd> {
                     // compound ranges (outside C09's single-version domain; floating_pragma must still see a caret range)
                     let form = *self.t.pick(&[">=0.8.0 ^0.8.1", "0.8.1 || ^0.7.0", "^0.8", ">=0.6.0 <0.9.0", "^ 0.8.4", ">0.5.0 ^0.5.7 <0.6.0"]);
                     self.w(&format!("pragma solidity {form} ;"));
+                } else if self.t.chance(30) {
+                    // comments inside the directive: carets and versions named there do not count
+                    match self.t.below(5) {
+                        0 => self.w(&format!("pragma solidity /* ^0.7.0 */ {op}{v} ;")),
+                        1 => self.w(&format!("pragma solidity {op}{v} /* until 0.9.0 */ ;")),
+                        2 => self.w(&format!("pragma solidity {op}{v} /* was ^0.7.6 */ ;")),
+                        3 if !op.is_empty() => self.w(&format!("pragma solidity {op} /* min */ {v} ;")),
+                        _ => self.w(&format!("pragma solidity {op}{v} // was ^0.6.12\n ;")),
+                    }
                 } else {
                     self.w(&format!("pragma solidity {op}{v} ;"));
                 }
@@ -317,11 +326,16 @@ impl<'t, 'd> Gen<'t, 'd> {
     }
 
     fn any_pragma(&mut self) {
-        match self.t.below(7) {
+        match self.t.below(9) {
             0 => {
                 let v = self.version();
                 self.w(&format!("pragma solidity {v} ;"))
             }
+            7 => {
+                let v = self.version();
+                self.w(&format!("pragma solidity /* ^ */ {v} /* ^0.4.0 */ ;"))
+            }
+            8 => self.w("pragma abicoder /* ^0.8.0 */ v2 ;"),
             1 => {
                 let v = self.version();
                 self.w(&format!("pragma solidity ^{v} ;"))
